@@ -90,6 +90,18 @@ def canon(e, env):
     t = try_operand(e)
     if t is not None:
         return canon(t, env) + '?'
+    if k == 'If':
+        c = e['ch']
+        r = 'if %s { %s }' % (canon(c[0], env), canon(c[1], env))
+        if len(c) > 2:
+            r += ' else { %s }' % canon(c[2], env)
+        return r
+    if k == 'Block' and 'expr' in e and all(s['k'] == 'Let' and s['pat'].get('k') == 'Binding'
+                                           and 'init' in s for s in e.get('stmts', [])):
+        en = dict(env)
+        for s in e['stmts']:
+            en[s['pat']['local']] = canon(s['init'], en)
+        return canon(e['expr'], en)
     return src(e)
 
 
@@ -106,12 +118,18 @@ def conj(e, env, positive=True):
     if e.get('k') == 'LetExpr':
         pat = e['pat']
         init = canon(e['ch'][0], env)
-        if pat.get('k') == 'TupleStruct' and strip_generics(pat.get('def', '')).endswith('Some'):
+        if pat.get('k') == 'TupleStruct' and strip_generics(pat.get('def', '')).endswith('Some') \
+                and len(pat.get('ch', [])) == 1 and pat['ch'][0].get('k') in ('Binding', 'Wild', 'Tuple'):
             p = 'VALID(%s)' % init
-            for b in _pat_binds(pat):
-                env[b['local']] = init
+            bs = _pat_binds(pat)
+            if len(bs) == 1:
+                env[bs[0]['local']] = init
+            else:
+                for b in bs:
+                    env[b['local']] = b['name']
             return [p if positive else '!' + p]
-        return ['let %s = %s' % (pat_src(pat), init)]
+        p = 'let %s = %s' % (pat_src(pat), init)
+        return [p if positive else '!' + p]
     c = canon(e, env)
     if positive:
         return [c]
@@ -132,16 +150,23 @@ def paths(e, env=None, conds=frozenset(), effects=()):
                 if s['k'] == 'Let' and 'init' in s:
                     en = dict(en)
                     init = peel(s['init'])
-                    if s['pat'].get('k') == 'Binding' and not s['pat'].get('mut'):
-                        en[s['pat']['local']] = canon(init, en)
+
+                    def bind(p_, v_, en=en):
+                        nonlocal ef
+                        c = canon(v_, en)
+                        if p_.get('mut') or len(c) > 60 or '|' in c:
+                            # mutable or effectful / long initialiser: keep the name
+                            en[p_['local']] = p_['name']
+                            ef = ef + ('%s := %s' % (p_['name'], c),)
+                        else:
+                            en[p_['local']] = c
+                    if s['pat'].get('k') == 'Binding':
+                        bind(s['pat'], init)
                     elif s['pat'].get('k') == 'Tuple' and init.get('k') == 'Tup' and \
                             len(init['ch']) == len(s['pat']['ch']):
                         for p_, v_ in zip(s['pat']['ch'], init['ch']):
                             if p_.get('k') == 'Binding':
-                                en[p_['local']] = canon(v_, en)
-                    elif s['pat'].get('k') == 'Binding':
-                        en[s['pat']['local']] = s['pat']['name']
-                        ef = ef + ('%s := %s' % (s['pat']['name'], canon(init, en)),)
+                                bind(p_, v_)
                     nxt.append((cs, ef, en))
                 elif s['k'] in ('Semi', 'Expr'):
                     x = peel(s['e'])
